@@ -336,7 +336,7 @@ theorem sandwich (a b c r S : Nat) (h1 : a * S ≤ b * S + r) (h2 : b * S + r < 
 
 /-- the decoder takes the same branch as the encoder, given that the final value lies in the
     encoder's interval after the bit was applied -/
-theorem apply_sync (e : Enc) (dn : Decn) (d : Dec) (N : Nat)
+theorem apply_sync (e : Enc) (dn : Decn) (d : Dec) (N : Nat) (hrhi : e.range < 2 ^ 32)
     (hr : d.range = e.range) (hcode : N = e.T + d.code)
     (hlo : (e.apply dn).T ≤ N) (hhi : N < (e.apply dn).T + (e.apply dn).range) :
     ∃ dm : Dec, d.step dn.p = dm.norm.map (fun d' => (dn.b, d')) ∧
@@ -348,11 +348,17 @@ theorem apply_sync (e : Enc) (dn : Decn) (d : Dec) (N : Nat)
     rcases hb : dn.b with _ | _
     · simp only [hb, Enc.T, Bool.false_eq_true, ↓reduceIte] at hlo hhi ⊢
       have hlt : d.code < d.range / 2 := by simp only [Enc.T] at hcode; omega
-      rw [if_pos hlt]
+      have hs : 2 ^ 31 ≤ (2 ^ 32 + d.code - d.range / 2) % 2 ^ 32 := by rw [hr] at hlt ⊢; omega
+      rw [if_pos hs]
       exact ⟨_, rfl, by simp [hr], by simp only [Enc.T] at hcode; omega, rfl⟩
     · simp only [hb, Enc.T, ↓reduceIte] at hlo hhi ⊢
       have hge : ¬ d.code < d.range / 2 := by simp only [Enc.T] at hcode; rw [hr]; omega
-      rw [if_neg hge]
+      have hlt2 : d.code < d.range / 2 + d.range / 2 := by simp only [Enc.T] at hcode; rw [hr]; omega
+      have hc : (2 ^ 32 + d.code - d.range / 2) % 2 ^ 32 = d.code - d.range / 2 := by
+        rw [hr] at hge hlt2 ⊢; omega
+      have hs : ¬ 2 ^ 31 ≤ (2 ^ 32 + d.code - d.range / 2) % 2 ^ 32 := by
+        rw [hc]; rw [hr] at hge hlt2 ⊢; omega
+      rw [if_neg hs, hc]
       refine ⟨_, rfl, by simp [hr], ?_, rfl⟩
       simp only [Enc.T] at hcode
       rw [hr]; dsimp only; omega
@@ -371,7 +377,8 @@ theorem apply_sync (e : Enc) (dn : Decn) (d : Dec) (N : Nat)
 
 theorem norm_sync (m : Enc) (hm : m.Inv) (dm : Dec) (pre inp : List Nat) (F : Nat)
     (hr : dm.range = m.range) (hcode : num pre = m.T + dm.code) (hinp : dm.inp = inp)
-    (hlen : inp.length + m.digits = F) (hF : m.norm.digits ≤ F) :
+    (hlen : inp.length + m.digits = F) (hF : m.norm.digits ≤ F)
+    (hc : dm.code < dm.range) (hx : ∀ x ∈ inp, x < 256) :
     ∃ d1 pre1 inp1, dm.norm = some d1 ∧ pre ++ inp = pre1 ++ inp1 ∧ d1.range = m.norm.range ∧
       num pre1 = m.norm.T + d1.code ∧ d1.inp = inp1 ∧ inp1.length + m.norm.digits = F := by
   unfold Enc.norm at hF ⊢
@@ -391,9 +398,12 @@ theorem norm_sync (m : Enc) (hm : m.Inv) (dm : Dec) (pre inp : List Nat) (F : Na
     rcases inp with _ | ⟨x, r⟩
     · simp at hlen; omega
     · rw [hinp]
+      have hx256 : x < 256 := hx x (by simp)
+      have hmod : (dm.code * 256 + x) % 2 ^ 32 = dm.code * 256 + x := by
+        apply Nat.mod_eq_of_lt; omega
       refine ⟨_, pre ++ [x], r, rfl, by simp, ?_, ?_, rfl, ?_⟩
       · rw [hR, hr]
-      · rw [num_append_single, hT, hcode]; ring
+      · rw [num_append_single, hT, hcode]; dsimp only; rw [hmod]; ring
       · rw [hd]; simp at hlen; omega
   · rw [if_neg hlt] at hF ⊢
     rw [if_neg (by rw [hr]; exact hlt)]
@@ -433,10 +443,10 @@ theorem step_sync (e : Enc) (he : e.Rest) (hdig : e.Dig) (dn : Decn) (hok : dn.o
       _ ≤ ((e.apply dn).norm.T + (e.apply dn).norm.range) * _ := hfR
       _ = _ := by rw [hnT, hnR]; ring
   obtain ⟨hA, hB⟩ := sandwich _ _ _ _ _ hlo hhi hinlt
-  obtain ⟨dm, hstepd, hdmr, hdmc, hdmi⟩ := apply_sync e dn d (num pre) hr hcode hA hB
+  obtain ⟨dm, hstepd, hdmr, hdmc, hdmi⟩ := apply_sync e dn d (num pre) he.rhi hr hcode hA hB
   obtain ⟨d1, pre1, inp1, hnorm, hsplit, hd1r, hd1c, hd1i, hlen1⟩ :=
     norm_sync (e.apply dn) hmid.toInv dm pre inp _ hdmr hdmc (hdmi.trans hinp)
-      (by omega) hfd
+      (by omega) hfd (by omega) (fun x hx => hall x (by rw [hW]; simp [hx]))
   refine ⟨d1, pre1, inp1, ?_, ⟨by rw [hW, hsplit], hlen1, hd1r, hd1c, hd1i⟩⟩
   simp only [hstepd, hnorm, Option.map_some]
 
